@@ -304,6 +304,8 @@ Definition xstep (backoff : Z) (s : st) (l : list Z) : st * list Z :=
       | Some s' => (s', obs 0 s')
       | None => (s, obs 1 s)
       end
+  | 5 :: d :: ms =>       (* a request whose backend takes d ns to answer: the clock has moved when the weights are adjusted *)
+      step backoff (fst (step backoff s (Tick d))) (Adjust (decode_meters ms))
   | _ => step backoff s (decode_op l)
   end.
 
